@@ -39,6 +39,9 @@ theorem heating_heating_poll (c : Heating.Cfg) (s : Heating.St) (pool air : Opti
   unfold heatingHeatingPoll Heating.heatingPoll Heating.poolDone Heating.airStop
   grind [absHeating]
 
+/-- the temperatures the polls compare are the reader's values for the requested sensor, the pool sensor by default -/
+theorem heating_reads_the_reader : heatingReadTemperature = ["signature self, key='temperature_pool'", "return reader value of key"] := by decide
+
 /-! non-vacuity: the generated function really takes different branches -/
 example : heatingWaitingPoll ⟨500, 500, 1000⟩ ⟨true, 0, 0, 26000, 15000⟩ 10 (some 20000) (some 18000) true true
     = ["ask Filtration heat", "tell self heat", "delay 20 do_repeat_waiting"] := by decide
